@@ -7,6 +7,8 @@ def run(ctx):
     text_layout(ctx)
     csv_quoting(ctx)
     text_presets(ctx)
+    from ..scen_text import text_nested
+    text_nested(ctx)
     print_numbers(ctx)
     from ..scen_misc import titles
     titles(ctx)
